@@ -3,8 +3,13 @@ use std::{
     fmt::{self, Debug, Formatter},
     net::SocketAddrV4,
     sync::Arc,
-    time::{Duration, Instant},
+    time::Duration,
 };
+
+#[cfg(mainline_verif)]
+use crate::verif::Instant;
+#[cfg(not(mainline_verif))]
+use std::time::Instant;
 
 use crate::common::Id;
 
